@@ -16,6 +16,8 @@ n = 0
 w = None
 samples = []
 root = tempfile.mkdtemp(prefix="c04_")
+import atexit as _atexit, shutil as _shutil
+_atexit.register(lambda: _shutil.rmtree(root, ignore_errors=True))     # nothing is left under /tmp
 
 
 def fresh_hash(cls, arg):
